@@ -45,7 +45,7 @@ def astmLevelCrossingCounting( data, refLevel=0.0, levels=None, aggregate=True )
     >>> rst = astmLevelCrossingCounting( data )
     '''
     # Edge case check
-    data = np.array( data )
+    data = np.array( data, dtype=float )
     if len( data.shape ) != 1:
         raise ValueError( "Input data dimension should be 1" )
     if data.shape[0] <= 1:
